@@ -2,7 +2,7 @@
    Statements only; proofs in IRCP.ModeP.  The "exactly as announced" half (replaying the
    announcement over the old channel record gives the new one) is checked on every run by the
    correspondence oracle, not proved here: see DESIGN.md section 5 (C08). *)
-From IRC Require Import Str Wild Glob Parse Reply State Handlers.
+From IRC Require Import Str Wild Glob Mask Parse Reply State Handlers.
 From IRCP Require Import ModeP AnnounceP.
 From stdpp Require Import gmap.
 
@@ -83,6 +83,74 @@ Theorem C08_announcement_text : forall target m body, mode_announcement target m
        rest = (if is_empty (ms_set m) then [] else c_plus :: ms_set m) ++ (if is_empty (ms_unset m) then [] else c_minus :: ms_unset m)).
 Proof. exact announcement_text. Qed.
 
+(* "exactly as announced", the parameter part, letter by letter: an accepted rank letter appends exactly
+   " <sign><letter> <nick>" to the parameter part and touches neither flag group; one the actor may not use, or
+   naming somebody who is not on the channel, announces nothing and changes nothing *)
+Theorem C08_rank_announced : forall c client target nick r ch rl mode_set arg args m m' ms' args',
+  rankletter_of ch = Some rl -> rank_may rl r = true -> arg ∈ dom (ch_users (ms_chan m)) ->
+  mode_char c client target nick r ch mode_set (arg :: args) m = Ok (m', ms', args') ->
+  ms_params m' = ms_params m ++ [c_space; (if mode_set then c_plus else c_minus); ch; c_space] ++ arg /\
+  ms_set m' = ms_set m /\ ms_unset m' = ms_unset m /\ ms_out m' = ms_out m /\
+  ms_limit_entry m' = ms_limit_entry m /\ ms_key_entry m' = ms_key_entry m.
+Proof. exact mode_char_rank_announced. Qed.
+
+Theorem C08_rank_silent : forall c client target nick r ch rl mode_set arg args m m' ms' args',
+  rankletter_of ch = Some rl -> (rank_may rl r = false \/ arg ∉ dom (ch_users (ms_chan m))) ->
+  mode_char c client target nick r ch mode_set (arg :: args) m = Ok (m', ms', args') ->
+  ms_params m' = ms_params m /\ ms_set m' = ms_set m /\ ms_unset m' = ms_unset m /\ ms_chan m' = ms_chan m.
+Proof. exact mode_char_rank_silent. Qed.
+
+(* an accepted ban / exception / invite-exception edit changes exactly that list by exactly the normalised mask and
+   appends exactly " <sign><letter> <normalised mask>"; a refused one (below half-operator) gives 482 to the sender,
+   announces nothing and leaves the channel record as it is *)
+Theorem C08_list_announced : forall c client target nick r ch ll mode_set mask args m m' ms' args',
+  listletter_of ch = Some ll -> rk_is_half_operator r = true ->
+  mode_char c client target nick r ch mode_set (mask :: args) m = Ok (m', ms', args') ->
+  ms_params m' = ms_params m ++ [c_space; (if mode_set then c_plus else c_minus); ch; c_space] ++ Mask.normalize_mask mask /\
+  ms_set m' = ms_set m /\ ms_unset m' = ms_unset m /\ ms_out m' = ms_out m /\
+  cm_get_list ll (ch_modes (ms_chan m')) =
+    (if mode_set then {[Mask.normalize_mask mask]} ∪ cm_get_list ll (ch_modes (ms_chan m))
+     else cm_get_list ll (ch_modes (ms_chan m)) ∖ {[Mask.normalize_mask mask]}).
+Proof. exact mode_char_list_announced. Qed.
+
+Theorem C08_list_refused : forall c client target nick r ch ll mode_set mask args m m' ms' args',
+  listletter_of ch = Some ll -> rk_is_half_operator r = false ->
+  mode_char c client target nick r ch mode_set (mask :: args) m = Ok (m', ms', args') ->
+  ms_params m' = ms_params m /\ ms_set m' = ms_set m /\ ms_unset m' = ms_unset m /\ ms_chan m' = ms_chan m /\
+  ms_out m' = ms_out m ++ [err_chanoprivsneeded client target].
+Proof. exact mode_char_list_refused. Qed.
+
+(* key and limit: only the LAST applied state is announced - an earlier "+k x" / "+l n" entry of the same command is
+   withdrawn from the parameter part and an earlier "-k" / "-l" from the '-' group, so the announcement never
+   describes the opposite of the final state (the defect fixed in daaf145) *)
+Theorem C08_key_announced : forall c client target nick r mode_set args m m' ms' args',
+  rk_is_half_operator r = true ->
+  mode_char c client target nick r 107 mode_set args m = Ok (m', ms', args') ->
+  let params1 := match ms_key_entry m with Some e => remove_first_sub e (ms_params m) | None => ms_params m end in
+  ms_set m' = ms_set m /\ ms_out m' = ms_out m /\ ms_limit_entry m' = ms_limit_entry m /\ ms' = mode_set /\
+  if mode_set then
+    exists arg, args = arg :: args' /\ cm_key (ch_modes (ms_chan m')) = Some arg /\
+      ms_params m' = params1 ++ lit " +k " ++ arg /\ ms_key_entry m' = Some (lit " +k " ++ arg) /\
+      ms_unset m' = remove_char 107 (ms_unset m)
+  else
+    args' = args /\ cm_key (ch_modes (ms_chan m')) = None /\ ms_params m' = params1 /\ ms_key_entry m' = None /\
+    ms_unset m' = remove_char 107 (ms_unset m) ++ [107%N].
+Proof. exact mode_char_key_announced. Qed.
+
+Theorem C08_limit_announced : forall c client target nick r mode_set args m m' ms' args',
+  rk_is_half_operator r = true ->
+  mode_char c client target nick r 108 mode_set args m = Ok (m', ms', args') ->
+  let params1 := match ms_limit_entry m with Some e => remove_first_sub e (ms_params m) | None => ms_params m end in
+  ms_set m' = ms_set m /\ ms_out m' = ms_out m /\ ms_key_entry m' = ms_key_entry m /\ ms' = mode_set /\
+  if mode_set then
+    exists arg n, args = arg :: args' /\ parse_uint usize_max arg = inl n /\ cm_limit (ch_modes (ms_chan m')) = Some n /\
+      ms_params m' = params1 ++ lit " +l " ++ arg /\ ms_limit_entry m' = Some (lit " +l " ++ arg) /\
+      ms_unset m' = remove_char 108 (ms_unset m)
+  else
+    args' = args /\ cm_limit (ch_modes (ms_chan m')) = None /\ ms_params m' = params1 /\ ms_limit_entry m' = None /\
+    ms_unset m' = remove_char 108 (ms_unset m) ++ [108%N].
+Proof. exact mode_char_limit_announced. Qed.
+
 End C08.
 
 Print Assumptions C08_outsider.
@@ -93,3 +161,9 @@ Print Assumptions C08_flag_applied.
 Print Assumptions C08_rank_applied.
 Print Assumptions C08_scope.
 Print Assumptions C08_query_inert.
+Print Assumptions C08_rank_announced.
+Print Assumptions C08_rank_silent.
+Print Assumptions C08_list_announced.
+Print Assumptions C08_list_refused.
+Print Assumptions C08_key_announced.
+Print Assumptions C08_limit_announced.
